@@ -310,6 +310,14 @@ def run(ctx):
     nrand = ctx.size(500, 5000)
     # random longer sources: additionally keep_trailing_newline for every delimiter set
     rand_cfgs = cfgs + [L.Cfg(name, ctx.rng.random() < 0.5, ctx.rng.random() < 0.5, keep=True) for name in L.DELIMS]
+    # Environment.lex under a non-default newline_sequence: the raw stream is that of the GIVEN source (\n-normalised),
+    # whatever sequence data tokens are later written with
+    rand_cfgs += [L.Cfg(name, ctx.rng.random() < 0.5, ctx.rng.random() < 0.5, nl=nl_, keep=ctx.rng.random() < 0.5)
+                  for name in L.DELIMS for nl_ in ("\r\n", "\r")]
+    for nl_ in ("\r\n", "\r"):
+        c = L.Cfg("default", True, True, nl=nl_)
+        for s in L.all_strings(["a", "\n", "\r", "{", "%", "}", " "], 4 if ctx.tier != "thorough" else 5):
+            cases.append((c, s))
     for c in rand_cfgs:
         for i in range(nrand):
             cases.append((c, L.gen_source(ctx.rng, c, unicode_text=(i % 4 == 0))))
@@ -345,7 +353,19 @@ def run(ctx):
             if L.outside_alphabet(m):
                 ctx.count("outside_ascii_tag_alphabet")
                 continue
-            ctx.model_mismatch("K-lex tokeniter", case, repr(m.canon())[:400], repr(r)[:400], None)
+            of = None
+            if r[0] == "OK" and m.end == "OK":
+                # "minus exactly the whitespace that whitespace control removes": the whitespace skipped by the real
+                # stream must be what the documented rules (the model's gaps, C12_trim_refines) remove
+                skips = [x[1] for x in oracle_lossless(r[1], L.normalize_src(s, c.keep))[1]]
+                gaps = [g[2] for g in m.items if g[0] == "g"]
+                if skips != gaps:
+                    of = "whitespace removed from the token stream %r, whitespace the trimming rules remove %r" % (skips, gaps)
+            elif m.end == "OK" and r[0].startswith("SYN") and "unexpected_char" in r[0]:
+                ch = int(r[0].split(".")[1]) if r[0].split(".")[1].isdigit() else -1
+                if chr(ch).isspace() if ch >= 0 else False:
+                    of = "a whitespace character inside a tag is rejected (%s): the stream cannot be read back to the source" % r[0]
+            ctx.model_mismatch("K-lex tokeniter", case, repr(m.canon())[:400], repr(r)[:400], of, signature="C39:%r:%s" % (s, c.key()) if of else None)
             continue
         if r[0] == "OK":
             # the skipped whitespace is what the model's gap items predict
@@ -405,6 +425,17 @@ def replay(ctx, data):
     w = judge(jinja2, c, s, r)
     if not w and r[0] == "OK":
         w = other_views(jinja2, c, L.env_for(jinja2, c), s, r[1])
+    if not w:
+        m = L.model_runs(ctx, [(c, s)])[0]
+        if r[0] == "OK" and m.end == "OK":
+            skips = [x[1] for x in oracle_lossless(r[1], L.normalize_src(s, c.keep))[1]]
+            gaps = [g[2] for g in m.items if g[0] == "g"]
+            if skips != gaps:
+                w = "whitespace removed from the token stream %r, whitespace the trimming rules remove %r" % (skips, gaps)
+        elif m.end == "OK" and r[0].startswith("SYN") and "unexpected_char" in r[0]:
+            f_ = r[0].split(".")
+            if len(f_) > 1 and f_[1].isdigit() and chr(int(f_[1])).isspace():
+                w = "a whitespace character inside a tag is rejected (%s)" % r[0]
     print("oracle     :", w)
     if w:
         ctx.reject(case, w, data.get("signature"))
